@@ -195,6 +195,7 @@ def run_property(prop, tier='quick', seed=0, out=sys.stdout):
             pass
     vio_lines = []
     confirmed = []
+    pending_lines = []       # (name, path, replay_ok)
     for name, obs in new_violations:
         path = write_replay(prop, name, obs)
         ok, note = try_replay(path)
@@ -203,12 +204,33 @@ def run_property(prop, tier='quick', seed=0, out=sys.stdout):
             for o in obs:
                 undecided.append(o)
             continue
-        suffix = '' if ok else ' no-failing-input-found'
-        line = f"VIOLATION property={prop} replay={path} obligation={name}{suffix}"
-        print(line, file=out)
-        vio_lines.append(line)
+        pending_lines.append((name, path, ok))
         confirmed.append((name, obs))
     new_violations = confirmed
+    if any(not ok for _, _, ok in pending_lines) and os.environ.get('PYVC_NO_SIMMON') != '1':
+        # violations without a native replay of their own: look for a failing run of the real code with the bounded simulation monitor
+        bpath = os.path.join(rdir, f'bounded_simulations_{prop}.json')
+        json.dump(dict(property=prop, obligation=f"bounded-simulations property={prop}", function='__simmon__', source=None,
+                       for_obligations=[n for n, _, ok in pending_lines if not ok],
+                       counterexamples=[dict(path=0, where=None, solver='bounded', model={}, solver_log=[])], replayed=False),
+                  open(bpath, 'w'), indent=1)
+        bok, _ = try_replay(bpath)
+        if bok:
+            for i, (name, path, ok) in enumerate(pending_lines):
+                if not ok:
+                    try:
+                        d = json.load(open(path))
+                        d['failing_run_of_the_real_code'] = bpath
+                        json.dump(d, open(path, 'w'), indent=1, default=str)
+                    except Exception:
+                        pass
+                    pending_lines[i] = (name, path, 'bounded')
+    for name, path, ok in pending_lines:
+        suffix = '' if ok else ' no-failing-input-found'
+        extra = f" (failing run of the real code: {os.path.join(rdir, 'bounded_simulations_' + prop + '.json')})" if ok == 'bounded' else ''
+        line = f"VIOLATION property={prop} replay={path} obligation={name}{suffix}{extra}"
+        print(line, file=out)
+        vio_lines.append(line)
     still = []
     for o in undecided:
         kf = [k for k in known if k.get('obligation') == o['name'] and k.get('status', 'open') == 'open']
